@@ -44,6 +44,8 @@ pub struct GenCfg {
     pub p_unreachable_pair: f64,
     /// Always put unique tags on places of multi-task jobs and multi-place tasks (needed by init-solution reader / checker).
     pub always_tag: bool,
+    /// chance of a tag on a place which is not forced to have one
+    pub p_place_tag: f64,
 }
 
 impl Default for GenCfg {
@@ -78,6 +80,7 @@ impl Default for GenCfg {
             p_break_mixed_places: 0.0,
             p_unreachable_pair: 0.0,
             always_tag: true,
+            p_place_tag: 0.2,
         }
     }
 }
@@ -295,7 +298,7 @@ pub fn generate_with_grid(rng: &mut Rng, cfg: &GenCfg) -> (PragProblem, Vec<(i64
                 }
                 p.insert("times".into(), Value::Array(times));
             }
-            if force_tag || rng.chance(0.2) {
+            if force_tag || rng.chance(cfg.p_place_tag) {
                 p.insert("tag".into(), json!(format!("t{}", *tag_counter)));
                 *tag_counter += 1;
             }
@@ -448,6 +451,18 @@ pub fn generate_with_grid(rng: &mut Rng, cfg: &GenCfg) -> (PragProblem, Vec<(i64
     }
     if has_multi_places {
         features.insert("multi-places".into());
+    }
+    // a task whose places are tagged sparsely: an untagged place listed in front of a tagged one
+    let sparse = jobs.iter().any(|job: &serde_json::Map<String, Value>| {
+        ["deliveries", "pickups", "services", "replacements"].iter().any(|kind| {
+            job.get(*kind).and_then(|t| t.as_array()).into_iter().flatten().any(|task| {
+                let places = task["places"].as_array().cloned().unwrap_or_default();
+                places.iter().position(|p| p.get("tag").is_none()).is_some_and(|first_untagged| places.iter().skip(first_untagged + 1).any(|p| p.get("tag").is_some()))
+            })
+        })
+    });
+    if sparse {
+        features.insert("sparse-place-tags".into());
     }
 
     // ------------------------------------------------------------------ fleet
